@@ -715,6 +715,7 @@ _reg(
     lambda mg, a, p, kw: mg.einsum(p["subs"], *a, optimize=p.get("optimize", False), **kw),
     lambda a, p: np.asarray(np.einsum(p["subs"], *a)),
     nary=True,
+    view=True,
 )
 _reg(
     "multi_matmul",
